@@ -7,6 +7,10 @@ Driver for the `seq` correspondence stream (C02).  Every op is self-contained
   kah     <mol> <k> <seed> <force> <isprot> <hex>        -> ok kmerhex:hash;...     | err <Exc>
   addseq  <mol> <k> <seed> <force> <hex> [<hex> ...]     -> ok|err <Exc> + " h:count,..." (sorted)
   addprot <mol> <k> <seed> <hex> [<hex> ...]             -> same
+  sketch  <mol> <k> <seed> <check> <isprot> <hex> ...    -> ok h:count,... | err     (`sourmash sketch dna|translate|protein`
+                                                            on a FASTA file of the records; force = not --check-sequence)
+  codon   <hex>                                          -> ok <byte> | err ValueError   (`translate_codon`, C string)
+  aa      <dayhoff|hp> <byte>                            -> ok <byte>   (`sourmash_aa_to_dayhoff` / `_hp`)
 
 mol ∈ dna|protein|dayhoff|hp ; mode ∈ str|bytes (how the Python caller passes the sequence).
 -/
@@ -107,6 +111,34 @@ def step (st : St) (line : String) : St × String :=
     match nat? seed, unhex hx with
     | some seed, some bs => if seedOk seed then (st, s!"ok {Murmur3.hashNat seed (Py.cstr bs)}") else bad
     | _, _ => bad
+  | "sketch" :: mol :: k :: seed :: check :: isprot :: hxs =>
+    match mol? mol, nats? [k, seed], bool? check, bool? isprot, hxs.mapM unhex with
+    | some hf, some [k, seed], some check, some isprot, some recs =>
+      let safe (r : List Nat) : Bool :=
+        !r.isEmpty && r.all (fun b => (65 ≤ b && b ≤ 90) || (97 ≤ b && b ≤ 122) || b == 42)
+      if !seedOk seed || recs.isEmpty || !recs.all safe || k < 1 || (isprot && (hf == .dna || check)) then bad else
+      let r := if isprot then feed (fun bs => Py.addProtein (Murmur3.hashNat seed) hf k bs) recs
+               else feed (fun bs => Py.addSequence (Murmur3.hashNat seed) hf k bs (!check)) recs
+      match r.2 with
+      | none => (st, "ok " ++ showCounts r.1)
+      | some _ => (st, "err")
+    | _, _, _, _, _ => bad
+  | ["codon", hx] =>
+    -- minhash.translate_codon: C string in, every SourmashError (panic included) re-raised as ValueError
+    match unhex hx with
+    | some bs =>
+      match translateCodon (Py.cstr bs) with
+      | .ok b => (st, s!"ok {b}")
+      | .error _ => (st, "err ValueError")
+    | none => bad
+  | ["aa", which, b] =>
+    match nat? b with
+    | some b =>
+      if b > 255 then bad
+      else if which == "dayhoff" then (st, s!"ok {aaToDayhoff b}")
+      else if which == "hp" then (st, s!"ok {aaToHp b}")
+      else bad
+    | none => bad
   | ["s2h", mol, k, seed, force, baz, isprot, mode, hx] =>
     match mol? mol, nats? [k, seed], bool? force, bool? baz, bool? isprot, mode? mode, unhex hx with
     | some hf, some [k, seed], some force, some baz, some isprot, some mode, some bs =>
